@@ -208,7 +208,13 @@ LOCALS = [
 
 GHOSTS = r"""
 size_t G;                       /* an arbitrary node (DESIGN 3.1) */
-double SPL_H, SPL_U;            /* node G: elevation and updated elevation at the store `erosion = h - u` */
+double SPL_H, SPL_U, SPL_ER;    /* node G: operands of the store `erosion = h - u` and the value stored */
+#ifdef REC_W
+/* node G, receiver slot r: the post-erosion elevation of the receiver as the code computes it in the first receiver loop
+ * (SPL_NX[r] = elevation[rec] - erosion[rec]) and its two operands.  The specification speaks about these computed values
+ * (DESIGN 3.4: no arithmetic circuit twice); that SPL_NX is the difference of its captured operands is a separate group. */
+double SPL_NX[REC_W], SPL_GE[REC_W], SPL_GER[REC_W];
+#endif
 double SPL_N_FUNC, SPL_N_AT;    /* Newton loop: the residual last tested against the tolerance, and the drop it was computed at */
 double SPL_N_DELTA, SPL_N_DELTA0; /* Newton branch: final and initial drop */
 """
@@ -216,35 +222,24 @@ double SPL_N_DELTA, SPL_N_DELTA0; /* Newton branch: final and initial drop */
 ACCESSORS = r"""
 /* instantiate-on-read of the graph's well-formedness (C05/C06 producer contracts, assumed): a node has at most REC_W
  * receivers; a receiver slot below the count holds a node index; the node is its own receiver only as its single receiver
- * (outlet / pit); otherwise the receiver comes earlier in the bottom-up order (order contract, ghost POS) */
+ * (outlet / pit).  (That every other receiver comes earlier in the bottom-up order -- the order contract, ghost POS -- is
+ * needed for the ghost node in the sweep only and is a precondition of spl_erode.) */
 static inline size_t spl_rcount(const size_t *rc, size_t n, size_t i)
 {
     size_t v = rc[FSL_IDX1(i, n)];
     FSL_PRE(v <= REC_W);
     return v;
 }
-static inline size_t spl_rec(const size_t *rec, const size_t *rc, const size_t *pos, size_t n, size_t i, size_t j)
+static inline size_t spl_rec(const size_t *rec, const size_t *rc, size_t n, size_t i, size_t j)
 {
     size_t v = rec[FSL_IDX2(i, j, n, REC_W)];
-    FSL_PRE(!(j < rc[i]) || (v < n && ((v == i && rc[i] == 1) || (v != i && pos[v] < pos[i]))));
+    FSL_PRE(!(j < rc[i]) || (v < n && (v != i || rc[i] == 1)));
     return v;
 }
-/* memory layout model of the read-only inputs: the graph's tables (and the ghost POS) are disjoint slices of one read-only
- * size_t object, the input fields and the floating-point tables disjoint slices of one read-only double object -- fewer
- * objects for the solver; sound because none of them is in a write frame (checked: assigns clauses) */
-#define dfs_indices (RO_Z)
-#define POS (RO_Z + gsize)
-#define m_receivers_count (RO_Z + 2 * gsize)
-#define m_receivers (RO_Z + 3 * gsize)
-#define elevation (RO_D)
-#define drainage_area (RO_D + gsize)
-#define m_k_coef_ (RO_D + 2 * gsize)
-#define m_receivers_distance (RO_D + 3 * gsize)
-#define m_receivers_weight (RO_D + 3 * gsize + gsize * REC_W)
 """
 
 STEP_DEFS = r"""
-#define receivers(i, j) spl_rec(m_receivers, m_receivers_count, POS, gsize, (i), (j))
+#define receivers(i, j) spl_rec(m_receivers, m_receivers_count, gsize, (i), (j))
 #define receivers_count(i) spl_rcount(m_receivers_count, gsize, (i))
 #define receivers_distance(i, j) m_receivers_distance[FSL_IDX2(i, j, gsize, REC_W)]
 #define receivers_weight(i, j) m_receivers_weight[FSL_IDX2(i, j, gsize, REC_W)]
@@ -254,8 +249,8 @@ STEP_DEFS = r"""
 PRED = r"""
 #define REC(x, k) m_receivers[(x) * REC_W + (k)]
 #define CNT(x) m_receivers_count[(x)]
-/* post-erosion elevation of the k-th receiver, as the caller of erode() computes it */
-#define NEXT(x, k) (elevation[REC(x, k)] - m_erosion[REC(x, k)])
+/* post-erosion elevation of the k-th receiver of the ghost node (captured value, see SPL_NX) */
+#define NEXT(x, k) SPL_NX[k]
 #define TERMINAL(x) (CNT(x) == 1 && REC(x, 0) == (x))
 """
 
@@ -276,28 +271,74 @@ def FLOOR_U(w):
 
 def FLOOR_RET(w):
     """the caller's new elevation of G (elevation - erosion) is not below the lowest post-erosion receiver"""
-    return disj("%k < CNT(G) && elevation[G] - m_erosion[G] >= NEXT(G, %k)", w)
+    return disj("%k < CNT(G) && SPL_H - SPL_ER >= NEXT(G, %k)", w)
 
 
-PARAMS = ("size_t gsize, const size_t *RO_Z, const double *RO_D, double *m_erosion, size_t *m_n_corr, double dt, double m_area_exp, "
-          "double m_slope_exp, double m_tolerance, _Bool m_linear")
-ARGS = "gsize, RO_Z, RO_D, m_erosion, m_n_corr, dt, m_area_exp, m_slope_exp, m_tolerance, m_linear"
+def OPERANDS(w):
+    """the captured operands are the table cells: elevation and (current) erosion of the k-th receiver"""
+    return conj("%k < CNT(G) ==> (SPL_GE[%k] == elevation[REC(G, %k)] && SAME_D(SPL_GER[%k], m_erosion[REC(G, %k)]))", w)
+
+
+def NEXT_DEF(w):
+    return conj("%k < CNT(G) ==> SAME_D(SPL_NX[%k], SPL_GE[%k] - SPL_GER[%k])", w)
+
+
+GHOST_ASSIGNS = "SPL_H, SPL_U, SPL_ER, __CPROVER_object_whole(SPL_NX), __CPROVER_object_whole(SPL_GE), __CPROVER_object_whole(SPL_GER)"
+
+
+PARAMS = ("size_t gsize, const size_t *m_receivers, const size_t *m_receivers_count, "
+          "const double *m_receivers_distance, const double *m_receivers_weight, const double *elevation, const double *drainage_area, "
+          "const double *m_k_coef_, double *m_erosion, size_t *m_n_corr, double dt, double m_area_exp, double m_slope_exp, "
+          "double m_tolerance, _Bool m_linear")
+ARGS = ("gsize, m_receivers, m_receivers_count, m_receivers_distance, m_receivers_weight, elevation, drainage_area, "
+        "m_k_coef_, m_erosion, m_n_corr, dt, m_area_exp, m_slope_exp, m_tolerance, m_linear")
 
 FRESH = r"""
 __CPROVER_requires(0 < gsize && gsize <= %s)
-/* RO_Z = [dfs_indices | POS | receivers_count | receivers], RO_D = [elevation | drainage_area | k_coef | receivers_distance | receivers_weight] */
-__CPROVER_requires(__CPROVER_is_fresh(RO_Z, gsize * RO_Z_BYTES) && __CPROVER_is_fresh(RO_D, gsize * RO_D_BYTES))
+__CPROVER_requires(__CPROVER_is_fresh(m_receivers, gsize * REC_BYTES) && __CPROVER_is_fresh(m_receivers_count, gsize * 8))
+__CPROVER_requires(__CPROVER_is_fresh(m_receivers_distance, gsize * REC_BYTES) && __CPROVER_is_fresh(m_receivers_weight, gsize * REC_BYTES))
+__CPROVER_requires(__CPROVER_is_fresh(elevation, gsize * 8) && __CPROVER_is_fresh(drainage_area, gsize * 8) && __CPROVER_is_fresh(m_k_coef_, gsize * 8))
 __CPROVER_requires(__CPROVER_is_fresh(m_erosion, gsize * 8) && __CPROVER_is_fresh(m_n_corr, 8))
 """ % NMAX_NODES
 
+# The receiver step is called from the node step with the node step's own (is_fresh) tables.  Its contract asks for what its
+# body needs -- readable tables of the stated sizes -- as validity predicates, which are cheap to establish at the call site;
+# its own group allocates the tables in the harness.
+VALID = r"""
+__CPROVER_requires(0 < gsize && gsize <= %s)
+__CPROVER_requires(__CPROVER_r_ok(m_receivers, gsize * REC_BYTES) && __CPROVER_r_ok(m_receivers_count, gsize * 8))
+__CPROVER_requires(__CPROVER_r_ok(m_receivers_distance, gsize * REC_BYTES) && __CPROVER_r_ok(m_receivers_weight, gsize * REC_BYTES))
+__CPROVER_requires(__CPROVER_r_ok(elevation, gsize * 8) && __CPROVER_r_ok(drainage_area, gsize * 8) && __CPROVER_r_ok(m_k_coef_, gsize * 8))
+__CPROVER_requires(__CPROVER_r_ok(m_erosion, gsize * 8))
+""" % NMAX_NODES
 
-def ghost_requires(w):
+VALID_RW = VALID.replace("__CPROVER_requires(__CPROVER_r_ok(m_erosion, gsize * 8))", "__CPROVER_requires(__CPROVER_rw_ok(m_erosion, gsize * 8) && __CPROVER_rw_ok(m_n_corr, 8))") + r"""
+/* the arrays written are not the arrays read (erode() writes its own members) */
+__CPROVER_requires(!__CPROVER_same_object(m_erosion, elevation) && !__CPROVER_same_object(m_erosion, m_receivers) && !__CPROVER_same_object(m_erosion, m_receivers_count) && !__CPROVER_same_object(m_erosion, m_n_corr))
+__CPROVER_requires(!__CPROVER_same_object(m_n_corr, elevation) && !__CPROVER_same_object(m_n_corr, m_receivers) && !__CPROVER_same_object(m_n_corr, m_receivers_count))
+"""
+
+ALLOC = r"""
+    __CPROVER_assume(0 < gsize && gsize <= %s);
+    /* the tables are allocated here (the receiver step's contract asks for validity, not freshness) */
+    const size_t *m_receivers = malloc(gsize * REC_BYTES), *m_receivers_count = malloc(gsize * 8);
+    const double *m_receivers_distance = malloc(gsize * REC_BYTES), *m_receivers_weight = malloc(gsize * REC_BYTES);
+    const double *elevation = malloc(gsize * 8), *drainage_area = malloc(gsize * 8), *m_k_coef_ = malloc(gsize * 8);
+    double *m_erosion = malloc(gsize * 8); size_t *m_n_corr = malloc(8);
+    __CPROVER_assume(m_receivers && m_receivers_count && m_receivers_distance && m_receivers_weight && elevation && drainage_area && m_k_coef_ && m_erosion && m_n_corr);
+""" % NMAX_NODES
+
+
+def ghost_requires(w, order=False):
+    """instance of the graph's well-formedness at the ghost node (same predicate as the accessors assume on read); with
+    order=True also the order contract: a receiver other than the node itself comes earlier in the bottom-up order"""
+    earlier = " && POS[REC(G, %k)] < POS[G]" if order else ""
     return r"""
-/* the ghost node and the instance of the graph's well-formedness at it (same predicate as the accessors assume on read);
- * finite elevations at G and its receivers (quantifier of the property: every finite elevation field) */
+/* the ghost node and the instance of the graph's well-formedness at it; finite elevations at G and its receivers
+ * (quantifier of the property: every finite elevation field) */
 __CPROVER_requires(G < gsize && CNT(G) <= REC_W && FINITE_D(elevation[G]))
 __CPROVER_requires(%s)
-""" % conj("%k < CNT(G) ==> (REC(G, %k) < gsize && FINITE_D(elevation[REC(G, %k)]) && ((REC(G, %k) == G && CNT(G) == 1) || (REC(G, %k) != G && POS[REC(G, %k)] < POS[G])))", w)
+""" % conj("%k < CNT(G) ==> (REC(G, %k) < gsize && FINITE_D(elevation[REC(G, %k)]) && ((REC(G, %k) == G && CNT(G) == 1) || (REC(G, %k) != G" + earlier + ")))", w)
 
 
 NEWTON_GHOST_ASSIGNS = "SPL_N_FUNC, SPL_N_AT, SPL_N_DELTA, SPL_N_DELTA0"
@@ -378,43 +419,50 @@ def make_recv(w, lemma="frame", extra_requires=""):
         body_suffix="spl_recv_out: *eq_num_p = eq_num; *eq_den_p = eq_den;\n",
         rules=[V(r"\bcontinue;", "goto spl_recv_out; /* `continue` of the outlined loop body */"),
                RB(r"\belse\b", NEWTON_CALL)] + LOCALS,
-        contract=FRESH + r"""
-__CPROVER_requires(__CPROVER_is_fresh(eq_num_p, 8) && __CPROVER_is_fresh(eq_den_p, 8))
+        contract=VALID + r"""
+__CPROVER_requires(__CPROVER_rw_ok(eq_num_p, 8) && __CPROVER_rw_ok(eq_den_p, 8))
 __CPROVER_requires(inode < gsize && r < CNT(inode) && CNT(inode) <= REC_W)
 """ + extra_requires + "__CPROVER_assigns(*eq_num_p, *eq_den_p, %s)\n" % NEWTON_GHOST_ASSIGNS + RECV_LEMMAS[lemma],
     )
 
 
 H_RECV = r"""
+#include <stdlib.h>
 size_t nondet_size_t(void); _Bool nondet_bool(void); double nondet_double(void);
 void h_spl_recv_step(void)
 {
     size_t gsize = nondet_size_t();
-    const size_t *RO_Z; const double *RO_D; double *m_erosion; size_t *m_n_corr; double *eq_num_p, *eq_den_p;
+%s
+    double eq_num = nondet_double(), eq_den = nondet_double();
     double dt = nondet_double(), m_area_exp = nondet_double(), m_slope_exp = nondet_double(), m_tolerance = nondet_double();
     _Bool m_linear = nondet_bool();
     SPL_N_FUNC = nondet_double(); SPL_N_AT = nondet_double(); SPL_N_DELTA = nondet_double(); SPL_N_DELTA0 = nondet_double();
-    spl_recv_step(nondet_size_t(), nondet_size_t(), nondet_double(), eq_num_p, eq_den_p, %s);
+    spl_recv_step(nondet_size_t(), nondet_size_t(), nondet_double(), &eq_num, &eq_den, %s);
     __CPROVER_assert(0, "canary: postcondition point reachable");
 }
-""" % ARGS
+""" % (ALLOC, ARGS)
 
 # ------------------------------------------------------------------------------------------ node step
-STEP_RULES = [
+STEP_RULES = LOCALS + [   # vocabulary first: the call texts inserted below pass m_n_corr as a pointer
     OUTLINE_CONTINUE,
     outline_loop_block(1, RECV_CALL % ARGS),
-] + LOCALS + [
     # ghost capture at the final store `m_erosion.flat(inode) = h - u;` (must be there: structural)
     R(r"m_erosion\.flat\(inode\) = (\w+) - (\w+);",
-      r"{ FSL_GHOST(if (inode == G) { SPL_H = \1; SPL_U = \2; }) m_erosion.flat(inode) = \1 - \2; }", 1),
+      r"{ FSL_GHOST(if (inode == G) { SPL_H = \1; SPL_U = \2; }) m_erosion.flat(inode) = \1 - \2; FSL_GHOST(if (inode == G) { SPL_ER = m_erosion.flat(inode); }) }", 1),
+    # ghost capture in the first receiver loop (the second one is outlined above): the receiver's post-erosion elevation
+    R(r"\b(?:data_type|double) (\w+) = (elevation\.flat\((\w+)\)) - (m_erosion\.flat\(\3\));",
+      r"double \1 = \2 - \4; FSL_GHOST(if (inode == G && r < REC_W) { SPL_NX[r] = \1; SPL_GE[r] = \2; SPL_GER[r] = \4; })", 1),
 ]
 
 
 def step_lemmas(w):
-    own = "dfs_indices[pos] == G"
+    own = "inode == G"
     open_ = "(%s && !TERMINAL(G) && %s && !%s)" % (own, NEXT_OK(w), LAKE(w))
+    unch = " && ".join("SAME_D(%s, __CPROVER_old(%s))" % (g, g) for g in
+                       ["SPL_H", "SPL_U", "SPL_ER"] + ["SPL_%s[%d]" % (a, k) for a in ("NX", "GE", "GER") for k in range(w)])
     return {
-        "frame": "__CPROVER_ensures(dfs_indices[pos] != G ==> (SAME_D(SPL_U, __CPROVER_old(SPL_U)) && SAME_D(SPL_H, __CPROVER_old(SPL_H))))\n",
+        "frame": "__CPROVER_ensures(inode != G ==> (%s))   /* the ghost captures belong to G's own iteration */\n" % unch,
+        "operands": "__CPROVER_ensures((%s && !TERMINAL(G)) ==> %s)   /* captured operands = elevation / current erosion of the receivers */\n" % (own, OPERANDS(w)),
         # C12 zero_at_terminals_and_lakes: erosion[G] is written only in G's own iteration (assigns clause), and not at all
         # on the outlet/pit path and on the lake path
         "terminal": "__CPROVER_ensures((%s && TERMINAL(G)) ==> SAME_D(m_erosion[G], __CPROVER_old(m_erosion[G])))   /* C12: outlet / pit keeps its erosion */\n" % own,
@@ -422,46 +470,71 @@ def step_lemmas(w):
                 % (own, NEXT_OK(w), LAKE(w)),
         # C12 clamp
         "clamp": "__CPROVER_ensures(%s ==> (isnan(SPL_U) || %s))   /* C12 clamp: u >= lowest post-erosion receiver elevation */\n" % (open_, FLOOR_U(w))
-                 + "__CPROVER_ensures(%s ==> (SPL_H == elevation[G] && SAME_D(m_erosion[G], SPL_H - SPL_U)))   /* erosion = h - u */\n" % open_,
+                 + "__CPROVER_ensures(%s ==> (SPL_H == elevation[G] && SAME_D(m_erosion[G], SPL_ER)))   /* h is G's elevation, the erosion stored is the captured one */\n" % open_,
+        # the captured values are what their names say (one floating-point subtraction each; isolated in its own group)
+        "defs": "__CPROVER_ensures((%s && !TERMINAL(G)) ==> %s)   /* SPL_NX[k] = elevation[rec_k] - erosion[rec_k] */\n" % (own, NEXT_DEF(w))
+                + "__CPROVER_ensures(%s ==> SAME_D(SPL_ER, SPL_H - SPL_U))   /* erosion = h - u */\n" % open_,
         # C12 returned_value_respects_floor
         "floor": "__CPROVER_ensures((%s && !isnan(SPL_U)) ==> %s)   /* C12 returned_value_respects_floor: elevation - erosion >= lowest post-erosion receiver elevation */\n"
                  % (open_, FLOOR_RET(w)),
     }
 
 
-def make_step(w, lemmas=("frame", "terminal", "lake", "clamp"), extra_requires=""):
+def make_step(w, lemmas=("frame", "operands", "terminal", "lake", "clamp"), extra_requires="", mem=None):
     L = step_lemmas(w)
+    mem = mem or FRESH
     return Unit(
         name="spl_node_step", file=SPL_H, anchor=ERODE_ANCHOR, inner=NODE_LOOP,
-        sig="void spl_node_step(size_t pos, %s)" % PARAMS,
+        # `inode` is the element of the range-for over nodes_indices_bottomup(); the caller reads it
+        sig="void spl_node_step(const size_t inode, %s)" % PARAMS,
         defs=STEP_DEFS,
-        body_prefix="const size_t inode = dfs_indices[FSL_IDX1(pos, gsize)]; /* element of the range-for over nodes_indices_bottomup() */\n",
         rules=STEP_RULES,
-        contract=FRESH + ghost_requires(w) + r"""
-/* order contract instance at the element read (the caller reads it in the range-for header) */
-__CPROVER_requires(pos < gsize && dfs_indices[pos] < gsize && POS[dfs_indices[pos]] == pos)
+        contract=mem + ghost_requires(w) + r"""
+__CPROVER_requires(inode < gsize)   /* order contract instance at the element read: an entry of the order is a node index */
 """ + extra_requires + r"""
 /* C12: erosion is written only at the node of this iteration */
-__CPROVER_assigns(m_erosion[dfs_indices[pos]], *m_n_corr, SPL_H, SPL_U, %s)
-""" % NEWTON_GHOST_ASSIGNS + "".join(L[l] for l in lemmas),
+__CPROVER_assigns(m_erosion[inode], *m_n_corr, %s, %s)
+""" % (GHOST_ASSIGNS, NEWTON_GHOST_ASSIGNS) + "".join(L[l] for l in lemmas),
     )
 
 
-def h_step(fn, lead):
+def h_step_alloc(fn, lead, decl=""):
     return r"""
+#include <stdlib.h>
 size_t nondet_size_t(void); _Bool nondet_bool(void); double nondet_double(void);
 void h_%(fn)s(void)
 {
     size_t gsize = nondet_size_t();
-    const size_t *RO_Z; const double *RO_D; double *m_erosion; size_t *m_n_corr;
+%(alloc)s
+    %(decl)s
     double dt = nondet_double(), m_area_exp = nondet_double(), m_slope_exp = nondet_double(), m_tolerance = nondet_double();
     _Bool m_linear = nondet_bool();
-    G = nondet_size_t(); SPL_H = nondet_double(); SPL_U = nondet_double();
+    G = nondet_size_t(); SPL_H = nondet_double(); SPL_U = nondet_double(); SPL_ER = nondet_double();
+    for (int k = 0; k < REC_W; ++k) { SPL_NX[k] = nondet_double(); SPL_GE[k] = nondet_double(); SPL_GER[k] = nondet_double(); }
     SPL_N_FUNC = nondet_double(); SPL_N_AT = nondet_double(); SPL_N_DELTA = nondet_double(); SPL_N_DELTA0 = nondet_double();
     %(fn)s(%(lead)s%(args)s);
     __CPROVER_assert(0, "canary: postcondition point reachable");
 }
-""" % dict(fn=fn, lead=lead, args=ARGS)
+""" % dict(fn=fn, lead=lead, args=ARGS, decl=decl, alloc=ALLOC)
+
+
+def h_step(fn, lead, decl=""):
+    return r"""
+size_t nondet_size_t(void); _Bool nondet_bool(void); double nondet_double(void);
+void h_%(fn)s(void)
+{
+    size_t gsize = nondet_size_t(); %(decl)s
+    const size_t *m_receivers, *m_receivers_count; const double *m_receivers_distance, *m_receivers_weight;
+    const double *elevation, *drainage_area, *m_k_coef_; double *m_erosion; size_t *m_n_corr;
+    double dt = nondet_double(), m_area_exp = nondet_double(), m_slope_exp = nondet_double(), m_tolerance = nondet_double();
+    _Bool m_linear = nondet_bool();
+    G = nondet_size_t(); SPL_H = nondet_double(); SPL_U = nondet_double(); SPL_ER = nondet_double();
+    for (int k = 0; k < REC_W; ++k) { SPL_NX[k] = nondet_double(); SPL_GE[k] = nondet_double(); SPL_GER[k] = nondet_double(); }
+    SPL_N_FUNC = nondet_double(); SPL_N_AT = nondet_double(); SPL_N_DELTA = nondet_double(); SPL_N_DELTA0 = nondet_double();
+    %(fn)s(%(lead)s%(args)s);
+    __CPROVER_assert(0, "canary: postcondition point reachable");
+}
+""" % dict(fn=fn, lead=lead, args=ARGS, decl=decl)
 
 
 # ------------------------------------------------------------------------------------------ erode (outer sweep)
@@ -480,17 +553,19 @@ static inline void fsl_fill_d(double *dst, double v, size_t n)
 
 
 def PROP(w):
-    """C12 at the ghost node after the sweep (and, in the loop invariant, once G has been processed)"""
+    """C12 at the ghost node after the sweep (and, in the loop invariant, once G has been processed); NEXT(G,k) = SPL_NX[k]
+    is the post-erosion elevation of the k-th receiver computed in this sweep, whose operands are the receiver's elevation
+    and its erosion in the returned array"""
     return ("((TERMINAL(G) ==> m_erosion[G] == 0)"
-            " && ((!TERMINAL(G) && %(OK)s) ==> ((%(LAKE)s ==> m_erosion[G] == 0)"
-            " && (!%(LAKE)s ==> ((isnan(SPL_U) || %(FLOOR)s) && SPL_H == elevation[G] && SAME_D(m_erosion[G], SPL_H - SPL_U))))))"
-            % dict(OK=NEXT_OK(w), LAKE=LAKE(w), FLOOR=FLOOR_U(w)))
+            " && (!TERMINAL(G) ==> (%(OPS)s && (%(OK)s ==> ((%(LAKE)s ==> m_erosion[G] == 0)"
+            " && (!%(LAKE)s ==> ((isnan(SPL_U) || %(FLOOR)s) && SPL_H == elevation[G] && SAME_D(m_erosion[G], SPL_ER))))))))"
+            % dict(OK=NEXT_OK(w), LAKE=LAKE(w), FLOOR=FLOOR_U(w), OPS=OPERANDS(w)))
 
 
 def make_erode(w):
     return Unit(
         name="spl_erode", file=SPL_H, anchor=ERODE_ANCHOR,
-        sig="void spl_erode(%s)" % PARAMS,
+        sig="void spl_erode(const size_t *dfs_indices, const size_t *POS, %s)" % PARAMS,
         pre=FILL,
         rules=[
             # reference aliases of the graph's tables (same names as the accessors): dropped, the names are macros / parameters
@@ -500,28 +575,30 @@ def make_erode(w):
             V(r"\bm_n_corr\b", "(*m_n_corr)"),
             R(NODE_LOOP, "for (size_t pos = 0; pos < gsize; ++pos)", 1),
             RB(r"for \(size_t pos = 0; pos < gsize; \+\+pos\)",
-               "{ FSL_PRE(dfs_indices[pos] < gsize && POS[dfs_indices[pos]] == pos); /* order contract instance at the element read */\n"
-               "  spl_node_step(pos, %s); }" % ARGS),
+               "{ const size_t inode = dfs_indices[FSL_IDX1(pos, gsize)]; /* element of the range-for */\n"
+               "  FSL_PRE(inode < gsize && POS[inode] == pos); /* order contract instance at the element read */\n"
+               "  spl_node_step(inode, %s); }" % ARGS),
             R(r"return m_erosion;", "return;", 1),
         ],
-        contract=FRESH + ghost_requires(w) + r"""
+        contract=FRESH + "__CPROVER_requires(__CPROVER_is_fresh(dfs_indices, gsize * 8) && __CPROVER_is_fresh(POS, gsize * 8))\n"
+                 + ghost_requires(w, order=True) + r"""
 /* order contract at the ghost node: G occurs in the order, at position POS[G] */
 __CPROVER_requires(POS[G] < gsize && dfs_indices[POS[G]] == G)
-__CPROVER_assigns(__CPROVER_object_whole(m_erosion), *m_n_corr, SPL_H, SPL_U, %s)
+__CPROVER_assigns(__CPROVER_object_whole(m_erosion), *m_n_corr, %s, %s)
 __CPROVER_ensures(%s)   /* C12 at an arbitrary node after erode(): terminal and lake nodes have zero erosion; every other node's updated elevation is not below its lowest post-erosion receiver */
-""" % (NEWTON_GHOST_ASSIGNS, PROP(w)),
+""" % (GHOST_ASSIGNS, NEWTON_GHOST_ASSIGNS, PROP(w)),
         loops={0: r"""
-__CPROVER_assigns(pos, __CPROVER_object_whole(m_erosion), *m_n_corr, SPL_H, SPL_U, %s)
+__CPROVER_assigns(pos, __CPROVER_object_whole(m_erosion), *m_n_corr, %s, %s)
 __CPROVER_loop_invariant(pos <= gsize)
 __CPROVER_loop_invariant(pos <= POS[G] ==> m_erosion[G] == 0)   /* reset at the start of every call; untouched before G's own iteration */
 __CPROVER_loop_invariant(POS[G] < pos ==> %s)
 __CPROVER_decreases(gsize - pos)
-""" % (NEWTON_GHOST_ASSIGNS, PROP(w))},
+""" % (GHOST_ASSIGNS, NEWTON_GHOST_ASSIGNS, PROP(w))},
     )
 
 
 def defines(w):
-    return ["REC_W=%d" % w, "RO_Z_BYTES=%d" % (8 * (3 + w)), "RO_D_BYTES=%d" % (8 * (3 + 2 * w))]
+    return ["REC_W=%d" % w, "REC_BYTES=%d" % (8 * w)]
 
 
 def _called(unit, names):
@@ -539,8 +616,8 @@ def step_group(w, tag, lemmas, clause, extra_requires="", tier="quick", timeout=
     return Group(
         name="spl.step.%s.w%d" % (tag, w), units=[newton, make_recv(w), step], harness=h_step("spl_node_step", "nondet_size_t(), "),
         entry="h_spl_node_step", enforce="spl_node_step", replace=_called(step, ["spl_recv_step"]),
-        unwindset={("spl_node_step", 0): w + 1, ("spl_node_step", 1): w + 1}, defines=defines(w),
-        backend="sat", timeout=timeout, min_obligations=40, tier=tier, clause=clause + "; <= %d receivers per node" % w)
+        unwindset={("spl_node_step", 0): w, ("spl_node_step", 1): w}, defines=defines(w),
+        backend="cadical", timeout=timeout, min_obligations=40, tier=tier, clause=clause + "; <= %d receivers per node" % w)
 
 
 def erode_group(w, tier="quick"):
@@ -548,7 +625,8 @@ def erode_group(w, tier="quick"):
     step = make_step(w)
     outer = make_erode(w)
     return Group(
-        name="spl.erode.loop.w%d" % w, units=[newton, make_recv(w), step, outer], harness=h_step("spl_erode", ""),
+        name="spl.erode.loop.w%d" % w, units=[newton, make_recv(w), step, outer],
+        harness=h_step("spl_erode", "dfs_indices, POS, ", "const size_t *dfs_indices, *POS;"),
         entry="h_spl_erode", enforce="spl_erode", replace=["spl_node_step"], loop_contracts=True,
         defines=defines(w), backend="sat", timeout=600, min_obligations=40, tier=tier,
         clause="C12 for the whole sweep (any number of nodes, using only the node-step contract and the order contract): erosion is reset "
@@ -576,12 +654,12 @@ __CPROVER_requires(FINITE_D(*eq_num_p) && FINITE_D(*eq_den_p) && *eq_den_p >= 1 
 """
 
 
-def recv_group(w, lemma, clause, extra_requires=""):
+def recv_group(w, lemma, clause, extra_requires="", backend="sat"):
     recv = make_recv(w, lemma, extra_requires)
     return Group(
         name="spl.recv.%s.w%d" % (lemma, w), units=[make_newton("exit"), recv], harness=H_RECV,
         entry="h_spl_recv_step", enforce="spl_recv_step", replace=_called(recv, ["spl_newton_branch", "fsl_pow"]),
-        defines=defines(w), backend="sat", timeout=600, min_obligations=20, clause=clause)
+        defines=defines(w), backend=backend, timeout=600, min_obligations=20, clause=clause)
 
 
 def c12_groups():
@@ -607,12 +685,6 @@ def c12_groups():
         gs.append(recv_group(w, "frame", "one receiver's contribution to the discrete equation (body of the second receiver loop, the "
                                          "arithmetic part of the node step): memory safety and frame -- it only updates the numerator and "
                                          "denominator of the node's equation; <= %d receivers per node" % w))
-    gs.append(recv_group(1, "number",
-                         "C12 (n = 1 path): for finite elevations, finite receiver erosion, finite erodibility >= 0, time step >= 0, drainage "
-                         "area >= 0, weight in [0,1], positive finite distance, finite exponents > 0 (the property's quantifier, 'including "
-                         "extreme products') the numerator and denominator of the node's discrete equation stay finite numbers, hence the "
-                         "returned erosion is a finite number (sign and floor clauses are meaningless for NaN / infinite erosion)",
-                         extra_requires=NUMBER_REQUIRES))
     return gs
 
 
